@@ -22,6 +22,13 @@ OpsD == {"clone", "read", "push", "rm", "drop"}
 cDeep2 == {[progs |-> [t \in T |-> IF t = 1 THEN p \o Drops ELSE q \o Drops], own0 |-> [t \in T |-> 1], borrowers |-> {}]
              : p \in SeqsUpTo(OpsD, 3), q \in SeqsUpTo(OpsD, 3)}
 cLend2 == Lend(2)
+\* clone_from inside one buffer: thread 1 owns two handles of X, thread 2 one
+OpsF == {"cfrom", "read", "push", "rm", "drop", "clone"}
+cFrom2 == {[progs |-> [t \in T |-> IF t = 1 THEN p \o Drops ELSE q \o Drops], own0 |-> [t \in T |-> IF t = 1 THEN 2 ELSE 1], borrowers |-> {}]
+             : p \in SeqsUpTo(OpsF, 2), q \in SeqsUpTo(OpsF, 2)}
+\* clone_from(&lent) by the borrowers into handles they cloned from it
+cLendFrom == {[progs |-> [t \in T |-> IF t = 1 THEN <<"join">> \o q \o Drops ELSE b \o Drops], own0 |-> [t \in T |-> 0], borrowers |-> T \ {1}]
+             : q \in SeqsUpTo({"push", "read"}, 1), b \in {<<"cloneb", "cfromb">>, <<"cloneb", "cfromb", "push">>, <<"cloneb", "trunc", "cfromb">>, <<"readb">>, <<"cloneb">>}}
 cOwn3 == Own3(1)
 cDemo == {[progs |-> [t \in T |-> IF t = 1 THEN <<"drop">> ELSE <<"push", "drop">>], own0 |-> [t \in T |-> 1], borrowers |-> {}]}
 
